@@ -678,6 +678,8 @@ func checkC03(c *Ctx) {
 			r.Check(cn == "keymap.MatchMain" || cn == "keymap.MatchLocal", "C03.dispatcher-callers", cn+"→"+dn, p.Pos(e.Pos()), "match function", cn+" runs the dispatcher outside the match functions: the keys it pops are not accounted for")
 		}
 	}
+	checkC03PeekPop(c)
+	checkC03EscapeResets(c)
 	r.Rule("C03.popkey-owner", "K2", "core.PopKey (which leaves mustWait untouched) is called only by the dispatcher; any other consumer drops keys with PopForce", 1)
 	if pk := p.Func("core.PopKey"); pk != nil {
 		for _, e := range p.callersOf(pk) {
